@@ -54,7 +54,7 @@ var famNames = []string{"I", "S", "C", "M", "R", "V", "B", "D"}
 
 func init() {
 	fams["D"] = &Fam{Name: "D", Parts: []string{"ID"}, Types: []string{"uint"}, Conv: true,
-		Mod: map[string]interface{}{"P": DP{}, "O": DO{}, "M": DM{}, "T": DT{}, "G": DG{}, "N": DN{}}}
+		Mod: map[string]interface{}{"P": DP{}, "O": DO{}, "M": DM{}, "T": DT{}, "G": DG{}, "N": DN{}, "U": DU{}}}
 }
 
 // Rel describes one relation: which Go fields of the parent and of the child are matched.
@@ -100,6 +100,7 @@ func (f *Fam) rels() map[string]Rel {
 			"Team":       {Name: "Team", Kind: "self_has_many", On: "P", Child: "P", PF: id, CF: []string{"BossID"}, CPtr: true},
 			"Owner":      {Name: "Owner", Kind: "belongs_to", On: "M", Child: "P", Single: true, PF: []string{"DPID"}, CF: id, PPtr: true},
 			"Notes":      {Name: "Notes", Kind: "polymorphic_renamed_columns", On: "P", Child: "N", PF: id, CF: []string{"OID"}, CPtr: true, Poly: "xp", TypeF: "Kind", TypeC: "kind"},
+			"Subs":       {Name: "Subs", Kind: "has_many_references_only", On: "P", Child: "U", PF: []string{"Code"}, CF: []string{"DPCode"}, KT: []string{"str"}, CPtr: true},
 			"Info.Buddy": {Name: "Info.Buddy", Kind: "embedded_belongs_to", On: "P", Child: "T", Single: true, PF: []string{"Info.BuddyID"}, CF: id, PPtr: true, NoJoin: true, NoAssoc: true},
 		}
 	}
@@ -142,7 +143,7 @@ func (f *Fam) kt(r Rel) []string {
 
 func (f *Fam) relNamesOnP() []string {
 	if f.Conv {
-		return []string{"One", "Many", "Target", "Tags", "Friends", "Boss", "Team", "Notes", "Info.Buddy"}
+		return []string{"One", "Many", "Target", "Tags", "Friends", "Boss", "Team", "Notes", "Info.Buddy", "Subs"}
 	}
 	out := []string{"One", "Many", "Target", "Tags", "Boss", "Team"}
 	if _, ok := f.Mod["N"]; ok {
@@ -599,7 +600,7 @@ func (e *Env) load(f *Fam, in Input) {
 		for _, r := range rows {
 			var cols []string
 			var args []interface{}
-			if _, ok := f.Mod["L"]; ok && m == "P" {
+			if _, ok := f.Mod["U"]; ok && m == "P" {
 				if _, has := r.F["Code"]; !has {
 					r.F["Code"] = VS(fmt.Sprint("code-", *r.F["UID"].I))
 				}
@@ -1566,7 +1567,7 @@ func genInput(r *lib.Rng, edge bool) Input {
 			in.Tables["N"] = append(in.Tables["N"], row)
 		}
 	}
-	if _, ok := f.Mod["L"]; ok {
+	if _, ok := f.Mod["U"]; ok {
 		// relations keyed by the NON-primary field Code (keys overridden by tags): codes are distinct
 		// strings, some of which read like the primary keys of OTHER parents
 		codePool := append([]string{"1", "2", "3", "4", "5", "6", "7"}, strPool...)
@@ -1592,14 +1593,15 @@ func genInput(r *lib.Rng, edge bool) Input {
 			strays = append(strays, []Val{VS(lib.Pick(r, codePool))})
 		}
 		var usedC [][]Val
-		for i, n := 0, r.Range(1, 8); i < n; i++ {
+		_, hasL := f.Mod["L"]
+		for i, n := 0, r.Range(1, 8); i < n && hasL; i++ {
 			row := base()
 			row.F["ID"] = VI(uid)
 			row.F["OwnerID"] = fkChoice(r, codes, strays, 1, 70, 12, 18)[0]
 			row.F["OwnerType"] = VS(lib.Pick(r, []string{"xp", "xp", "xp", "other"}))
 			in.Tables["L"] = append(in.Tables["L"], row)
 		}
-		for i, n := 0, r.Range(1, 6); i < n; i++ {
+		for i, n := 0, r.Range(1, 6); i < n && hasL; i++ {
 			fk := fkChoice(r, codes, strays, 1, 70, 12, 18)
 			if !fk[0].Null {
 				if hasTuple(usedC, fk) {
@@ -1616,7 +1618,7 @@ func genInput(r *lib.Rng, edge bool) Input {
 		for i, n := 0, r.Range(1, 8); i < n; i++ {
 			row := base()
 			row.F["ID"] = VI(uid)
-			row.F["PCode"] = fkChoice(r, codes, strays, 1, 70, 12, 18)[0]
+			row.F[rels["Subs"].CF[0]] = fkChoice(r, codes, strays, 1, 70, 12, 18)[0]
 			in.Tables["U"] = append(in.Tables["U"], row)
 		}
 	}
